@@ -47,8 +47,15 @@ Theorem c07_idempotent_sets : forall (X : Type) (eqb : X -> X -> bool) (stacked 
   forall x, G.reach stacked succ' roots x <-> In x U.
 Proof. exact G.gc_idempotent_sets. Qed.
 
+(* the source of the used-analysis and of the sweep still has the control skeleton the model was written against
+   (regenerated Gen/GcSkeleton.v = the pinned copy in Proofs/GcPinned.v): roots, edges, residue, sweep order *)
+From WV Require Import Gen.GcSkeleton Proofs.GcPinned.
+Theorem c07_source_skeleton : used_new_skeleton = expected_used_new /\ used_visitor_skeleton = expected_used_visitor /\ gc_run_skeleton = expected_gc_run.
+Proof. exact used_skeleton_pinned. Qed.
+
 Print Assumptions c07_used_is_reachable_set.
 Print Assumptions c07_no_fuel_exhaustion.
 Print Assumptions c07_precise.
 Print Assumptions c07_sweep_exact.
 Print Assumptions c07_idempotent_sets.
+Print Assumptions c07_source_skeleton.
